@@ -5,27 +5,27 @@ import WzVerif.Lemmas.Multipart
 namespace Wz.Multipart
 open Wz
 
-/-- lines joined by CRLF (no trailing CRLF) -/
-def joinCrlf : List Bytes → Bytes
+/-- lines joined by the line break (no trailing line break) -/
+def joinNl (nl : Nl) : List Bytes → Bytes
   | [] => []
   | [l] => l
-  | l :: l2 :: t => l ++ 13 :: 10 :: joinCrlf (l2 :: t)
+  | l :: l2 :: t => l ++ (nl.bytes ++ joinNl nl (l2 :: t))
 
 /-- a header line as the encoder writes it: not empty, no CR / LF, no bytes-whitespace at either end -/
 def LineOk (l : Bytes) : Prop :=
   l ≠ [] ∧ hasNl l = false ∧ isBytesSpace (l.headD 0) = false ∧ isBytesSpace (l.getLastD 0) = false
 
-theorem joinCrlf_cons_cons (l l2 : Bytes) (t : List Bytes) :
-    joinCrlf (l :: l2 :: t) = l ++ 13 :: 10 :: joinCrlf (l2 :: t) := rfl
+theorem joinNl_cons_cons (nl : Nl) (l l2 : Bytes) (t : List Bytes) :
+    joinNl nl (l :: l2 :: t) = l ++ (nl.bytes ++ joinNl nl (l2 :: t)) := rfl
 
-theorem joinCrlf_head {l : Bytes} (t : List Bytes) (h : l ≠ []) :
-    ∃ x r, joinCrlf (l :: t) = x :: r ∧ x = l.headD 0 := by
+theorem joinNl_head (nl : Nl) {l : Bytes} (t : List Bytes) (h : l ≠ []) :
+    ∃ x r, joinNl nl (l :: t) = x :: r ∧ x = l.headD 0 := by
   cases l with
   | nil => exact absurd rfl h
   | cons x l' =>
     cases t with
     | nil => exact ⟨x, l', rfl, rfl⟩
-    | cons l2 t => exact ⟨x, l' ++ 13 :: 10 :: joinCrlf (l2 :: t), rfl, rfl⟩
+    | cons l2 t => exact ⟨x, l' ++ (nl.bytes ++ joinNl nl (l2 :: t)), rfl, rfl⟩
 
 theorem not_nl_of_not_space {x : UInt8} (h : isBytesSpace x = false) : isNl x = false := by
   cases hn : isNl x with
@@ -50,42 +50,53 @@ theorem searchBlank_append_no_nl (l rest : Bytes) (h : hasNl l = false) :
     rw [List.cons_append, searchBlank_cons_zero (blankLen_not_nl _ h.1), ih h.2, shift2_shift2]
     simp
 
-theorem searchBlank_sep {x : UInt8} (r : Bytes) (h : isNl x = false) :
-    searchBlank (13 :: 10 :: x :: r) = shift2 2 (searchBlank (x :: r)) := by
+theorem searchBlank_sep (nl : Nl) {x : UInt8} (r : Bytes) (h : isNl x = false) :
+    searchBlank (nl.bytes ++ x :: r) = shift2 nl.len (searchBlank (x :: r)) := by
   simp [isNl] at h
   have h1 : ((13 : UInt8) == x) = false := by simp; exact fun e => h.2 e.symm
   have h2 : ((10 : UInt8) == x) = false := by simp; exact fun e => h.1 e.symm
-  have b1 : blankLen (13 :: 10 :: x :: r) = 0 := by simp [blankLen, List.isPrefixOf, h1]
-  have b2 : blankLen (10 :: x :: r) = 0 := by simp [blankLen, List.isPrefixOf, h2]
-  rw [searchBlank_cons_zero b1, searchBlank_cons_zero b2, shift2_shift2]
+  cases nl with
+  | crlf =>
+    have b1 : blankLen (13 :: 10 :: x :: r) = 0 := by simp [blankLen, List.isPrefixOf, h1]
+    have b2 : blankLen (10 :: x :: r) = 0 := by simp [blankLen, List.isPrefixOf, h2]
+    show searchBlank (13 :: 10 :: x :: r) = _
+    rw [searchBlank_cons_zero b1, searchBlank_cons_zero b2, shift2_shift2]; rfl
+  | lf =>
+    have b2 : blankLen (10 :: x :: r) = 0 := by simp [blankLen, List.isPrefixOf, h2]
+    show searchBlank (10 :: x :: r) = _
+    rw [searchBlank_cons_zero b2]; rfl
+  | cr =>
+    have b1 : blankLen (13 :: x :: r) = 0 := by simp [blankLen, List.isPrefixOf, h1, h2]
+    show searchBlank (13 :: x :: r) = _
+    rw [searchBlank_cons_zero b1]; rfl
 
-theorem searchBlank_end (Z : Bytes) : searchBlank (13 :: 10 :: 13 :: 10 :: Z) = some (0, 4) := by
-  simp [searchBlank, blankLen, List.isPrefixOf]
+theorem searchBlank_end (nl : Nl) (Z : Bytes) :
+    searchBlank (nl.bytes ++ (nl.bytes ++ Z)) = some (0, 2 * nl.len) := by
+  cases nl <;> simp [searchBlank, blankLen, List.isPrefixOf, Nl.bytes, Nl.len]
 
-/-- the first blank line of `header lines CRLF CRLF …` is the one that ends the block -/
-theorem searchBlank_block (lines : List Bytes) (Z : Bytes) (hne : lines ≠ []) (hok : ∀ l ∈ lines, LineOk l) :
-    searchBlank (joinCrlf lines ++ 13 :: 10 :: 13 :: 10 :: Z) =
-      some ((joinCrlf lines).length, (joinCrlf lines).length + 4) := by
+/-- the first blank line of `header lines NL NL …` is the one that ends the block -/
+theorem searchBlank_block (nl : Nl) (lines : List Bytes) (Z : Bytes) (hne : lines ≠ [])
+    (hok : ∀ l ∈ lines, LineOk l) :
+    searchBlank (joinNl nl lines ++ (nl.bytes ++ (nl.bytes ++ Z))) =
+      some ((joinNl nl lines).length, (joinNl nl lines).length + 2 * nl.len) := by
   induction lines with
   | nil => exact absurd rfl hne
   | cons l t ih =>
     have hl := hok l (by simp)
     cases t with
     | nil =>
-      simp only [joinCrlf]
+      simp only [joinNl]
       rw [searchBlank_append_no_nl _ _ hl.2.1, searchBlank_end]; simp [shift2]; omega
     | cons l2 t =>
       have hl2 := hok l2 (by simp)
-      rcases joinCrlf_head t hl2.1 with ⟨x, r, hx, hxe⟩
+      rcases joinNl_head nl t hl2.1 with ⟨x, r, hx, hxe⟩
       have hxn : isNl x = false := by rw [hxe]; exact not_nl_of_not_space hl2.2.2.1
-      rw [joinCrlf_cons_cons, List.append_assoc, searchBlank_append_no_nl _ _ hl.2.1]
-      rw [show (13 :: 10 :: joinCrlf (l2 :: t) ++ 13 :: 10 :: 13 :: 10 :: Z : Bytes) =
-          13 :: 10 :: (joinCrlf (l2 :: t) ++ 13 :: 10 :: 13 :: 10 :: Z) from rfl]
+      rw [joinNl_cons_cons, List.append_assoc, searchBlank_append_no_nl _ _ hl.2.1, List.append_assoc]
       have ih' := ih (by simp) (fun y hy => hok y (by simp [hy]))
       rw [hx] at ih' ⊢
-      rw [show (x :: r ++ 13 :: 10 :: 13 :: 10 :: Z : Bytes) = x :: (r ++ 13 :: 10 :: 13 :: 10 :: Z) from rfl] at ih' ⊢
-      rw [searchBlank_sep _ hxn, ih', shift2_shift2]
-      simp [shift2]; omega
+      rw [show (x :: r ++ (nl.bytes ++ (nl.bytes ++ Z)) : Bytes) = x :: (r ++ (nl.bytes ++ (nl.bytes ++ Z))) from rfl] at ih' ⊢
+      rw [searchBlank_sep nl _ hxn, ih', shift2_shift2]
+      simp [shift2, Nl.len]; omega
 
 /-! ### HEADER_CONTINUATION_RE.sub leaves the block alone -/
 
@@ -98,14 +109,18 @@ theorem foldGo_no_nl (l rest : Bytes) (h : hasNl l = false) :
     simp only [List.cons_append, foldContinuations.go, lbLen_cons_not_nl h.1]
     simp [ih h.2]
 
-theorem foldGo_sep {x : UInt8} (r : Bytes) (h : isBytesSpace x = false) :
-    foldContinuations.go 0 (13 :: 10 :: x :: r) = 13 :: 10 :: foldContinuations.go 0 (x :: r) := by
+theorem foldGo_sep (nl : Nl) {x : UInt8} (r : Bytes) (h : isBytesSpace x = false) :
+    foldContinuations.go 0 (nl.bytes ++ x :: r) = nl.bytes ++ foldContinuations.go 0 (x :: r) := by
   have h32 : x ≠ 32 := by intro e; subst e; simp [isBytesSpace] at h
   have h9 : x ≠ 9 := by intro e; subst e; simp [isBytesSpace] at h
-  simp [foldContinuations.go, lbLen_crlf, lbLen_lf, h32, h9]
+  have h10 : x ≠ 10 := by intro e; subst e; simp [isBytesSpace] at h
+  cases nl with
+  | crlf => simp [Nl.bytes, foldContinuations.go, lbLen_crlf, lbLen_lf, h32, h9]
+  | lf => simp [Nl.bytes, foldContinuations.go, lbLen_lf, h32, h9]
+  | cr => simp [Nl.bytes, foldContinuations.go, lbLen_cr_not_lf r h10, h32, h9]
 
-theorem fold_block (lines : List Bytes) (hok : ∀ l ∈ lines, LineOk l) :
-    foldContinuations (joinCrlf lines) = joinCrlf lines := by
+theorem fold_block (nl : Nl) (lines : List Bytes) (hok : ∀ l ∈ lines, LineOk l) :
+    foldContinuations (joinNl nl lines) = joinNl nl lines := by
   unfold foldContinuations
   induction lines with
   | nil => rfl
@@ -114,14 +129,14 @@ theorem fold_block (lines : List Bytes) (hok : ∀ l ∈ lines, LineOk l) :
     cases t with
     | nil =>
       have := foldGo_no_nl l [] hl.2.1
-      simpa [joinCrlf, foldContinuations.go] using this
+      simpa [joinNl, foldContinuations.go] using this
     | cons l2 t =>
       have hl2 := hok l2 (by simp)
-      rcases joinCrlf_head t hl2.1 with ⟨x, r, hx, hxe⟩
+      rcases joinNl_head nl t hl2.1 with ⟨x, r, hx, hxe⟩
       have ih' := ih (fun y hy => hok y (by simp [hy]))
-      rw [joinCrlf_cons_cons, foldGo_no_nl _ _ hl.2.1]
+      rw [joinNl_cons_cons, foldGo_no_nl _ _ hl.2.1]
       rw [hx] at ih' ⊢
-      rw [foldGo_sep r (by rw [hxe]; exact hl2.2.2.1), ih']
+      rw [foldGo_sep nl r (by rw [hxe]; exact hl2.2.2.1), ih']
 
 /-! ### bytes.splitlines gives the lines back -/
 
@@ -141,30 +156,33 @@ theorem splitGo_no_nl (l : Bytes) : ∀ (rest cur : Bytes) (b : Bool), hasNl l =
       rw [ih rest (a :: cur) false h.2 (by simp)]
       simp
 
-theorem splitGo_sep (rest cur : Bytes) :
-    splitLines.go (13 :: 10 :: rest) cur false = cur.reverse :: splitLines.go rest [] false := by
-  simp [splitLines.go]
+theorem splitGo_sep (nl : Nl) (rest cur : Bytes) :
+    ∃ b, splitLines.go (nl.bytes ++ rest) cur false = cur.reverse :: splitLines.go rest [] b := by
+  cases nl with
+  | crlf => exact ⟨false, by simp [Nl.bytes, splitLines.go]⟩
+  | lf => exact ⟨false, by simp [Nl.bytes, splitLines.go]⟩
+  | cr => exact ⟨true, by simp [Nl.bytes, splitLines.go]⟩
 
-theorem split_block (lines : List Bytes) (hok : ∀ l ∈ lines, LineOk l) :
-    splitLines (joinCrlf lines) = lines := by
+theorem split_block (nl : Nl) (lines : List Bytes) (hok : ∀ l ∈ lines, LineOk l) :
+    splitLines (joinNl nl lines) = lines := by
   unfold splitLines
+  suffices h : ∀ b, splitLines.go (joinNl nl lines) [] b = lines from h false
   induction lines with
-  | nil => simp [joinCrlf, splitLines.go]
+  | nil => intro b; simp [joinNl, splitLines.go]
   | cons l t ih =>
+    intro b
     have hl := hok l (by simp)
     cases t with
     | nil =>
-      have := splitGo_no_nl l [] [] false hl.2.1 hl.1
-      simp only [joinCrlf]
+      have := splitGo_no_nl l [] [] b hl.2.1 hl.1
+      simp only [joinNl]
       rw [← List.append_nil l, this]
-      have hne : (l.reverse ++ []).isEmpty = false := by
-        cases l with
-        | nil => exact absurd rfl hl.1
-        | cons a t => simp
       simp [splitLines.go, hl.1]
     | cons l2 t =>
       have ih' := ih (fun y hy => hok y (by simp [hy]))
-      rw [joinCrlf_cons_cons, splitGo_no_nl l _ [] false hl.2.1 hl.1, splitGo_sep, ih']
+      rw [joinNl_cons_cons, splitGo_no_nl l _ [] b hl.2.1 hl.1]
+      rcases splitGo_sep nl (joinNl nl (l2 :: t)) (l.reverse ++ []) with ⟨b', hb'⟩
+      rw [hb', ih' b']
       simp
 
 /-! ### strip leaves the lines alone -/
